@@ -6,7 +6,7 @@ import json, sys
 CHECKS = {
  "C12": ("fault_enumeration",
          "runtime fault injection through harness-supplied writer / reader / fetcher / registry client / finders at every position, with return-value, recovered-panic, directory-copy (crash point) and diagnostic-content oracles",
-         "Every single failure position is enumerated per stream or build: each write offset of Pack's writer (error required), each read offset of Unpack's reader as error and as clean EOF (success only with the complete tree), 16 policy refusals (must be IllegalSlugError), each fetcher / registry / finder call of generated builds in all applicable fault modes (and all pairs in the thorough tier): error diagnostic from the Add call that ran it, all Builder methods refuse afterwards, no Bundle, directory does not open; warnings and errors of finders reach caller and tracer intact with file names rewritten; the target directory is copied and opened at every callback entry and exit; read-only target directory at every position as an unprivileged user.",
+         "Every single failure position is enumerated per stream or build: each write offset of Pack's writer (error required), each read offset of Unpack's reader as error and as clean EOF (success only with the complete tree), 16 Unpack policy refusals and 7 Pack policy refusals, incl. cycles found one and two dereferenced directories down (must be IllegalSlugError), each fetcher / registry / finder call of generated builds in all applicable fault modes (and all pairs in the thorough tier): error diagnostic from the Add call that ran it, all Builder methods refuse afterwards, no Bundle, directory does not open; warnings and errors of finders reach caller and tracer intact with file names rewritten; the target directory is copied and opened at every callback entry and exit; read-only target directory at every position as an unprivileged user.",
          "Faults are injected at the public boundary only; failures inside go-slug's own filesystem calls are reached through the read-only-directory phase, not per syscall (the strace injector of the design was not built).",
          "DESIGN.md §5 C12"),
  "C13": ("exploration",
@@ -16,17 +16,17 @@ CHECKS = {
          "DESIGN.md §5 C13"),
  "C09": ("exploration",
          "runtime monitor: full accessor sweep and directory-tree comparison of Close() vs OpenDir() vs ExtractArchive(WriteArchive())",
-         "Bundles built from worlds with odd addresses, aliases, several registry versions, deprecations, metadata and packages with links, empty directories, odd modes and odd names are re-opened and sent through WriteArchive/ExtractArchive; a sweep over every accessor (incl. all lookups relative to the root and SourceForLocalPath of every path) must print identically for all three (and twice for the first), and the extracted tree must equal the built one.",
+         "Bundles built from worlds with odd addresses, aliases, several registry versions, deprecations, metadata and packages with links, empty directories, odd modes and odd names are re-opened and sent through WriteArchive/ExtractArchive; a sweep over every accessor (incl. all lookups relative to the root and SourceForLocalPath of every path) must print identically for all three (and twice for the first), and the extracted tree must equal the built one. A directed exhaustive phase (48 worlds) covers registry versions that differ only in build metadata.",
          "Modification times are not compared.",
          "DESIGN.md §5 C09"),
  "C10": ("exploration",
          "runtime monitor: physical link resolution and reference ignore verdicts over every package directory of the finished bundle; independent expectation of which fetched trees must fail; snapshot diff around the target directory; exhaustive offender shapes x positions and ordered pairs",
-         "25 shapes (clean and offending links, special files, offenders hidden or created by ignore rules) are planted at each of 3 positions of a dependency graph, and all ordered pairs in two packages. The harness materialises the fetched tree itself, removes reference-excluded paths and resolves the remaining links physically to decide whether the build must fail; successful bundles are walked with the physical resolver and the reference matcher; nothing outside the target directory may change.",
+         "32 shapes (clean and offending links, links led outside by another link, special files, offenders hidden or created by ignore rules, a rule file without final newline) are planted at each of 3 positions of a dependency graph, and all ordered pairs in two packages. The harness materialises the fetched tree itself, removes reference-excluded paths and resolves the remaining links physically to decide whether the build must fail; successful bundles are walked with the physical resolver and the reference matcher; nothing outside the target directory may change.",
          "Links to in-package directories are outside the universe.",
          "DESIGN.md §5 C10"),
  "C18": ("exploration",
          "runtime monitor over harness-written manifests: directory-name refusal, containment of every lookup answer, inverse and stability of forward / reverse lookups, refusal of foreign paths",
-         "Field-wise manifests (exhaustive over a 30-name hostile directory alphabet x 3 shapes incl. aliases of equal length), PRNG manifests and structure- / byte-mutated manifests of real builds are written into a bundle root; whenever OpenDir accepts one, the four clauses of the property are checked over all listed packages and registry versions, 8 in-package path shapes in two spellings and 7 foreign paths.",
+         "Field-wise manifests (exhaustive over a 30-name hostile directory alphabet x 3 shapes incl. aliases of equal length), PRNG manifests and structure- / byte-mutated manifests of real builds are written into a bundle root; whenever OpenDir accepts one, the four clauses of the property are checked over all listed packages and registry versions, 8 in-package path shapes in two spellings and 7 foreign paths. 188 documents kept by coverage-guided fuzzing campaigns are replayed; thorough adds a native go test -fuzz run of OpenDir with the lookup assertions.",
          "The harness learns the document's directory names by decoding it leniently itself.",
          "DESIGN.md §5 C18"),
  "C08": ("exploration",
@@ -36,8 +36,8 @@ CHECKS = {
          "DESIGN.md §5 C08"),
  "C14": ("exploration",
          "offline checker over the recorded callback + BuildTracer event log: exactly-once counting against the reference closure and a per-key bracket automaton; logical termination bound",
-         "Same worlds as C08. All fetcher/registry/finder calls and trace events go to one sequence-numbered log; the checker requires exactly one fetch per closure package (none outside), one version-list request per registry package, one source-address request per selected version, finder runs equal to the number of distinct closure addresses per (content, sub-path, finder), and start->(success|failure)->already* per key. A build exceeding 4x the closure's callback count is aborted and reported as non-terminating.",
-         "Order of events is unconstrained; fault-free worlds only.",
+         "Same worlds as C08. All fetcher/registry/finder calls and trace events go to one sequence-numbered log; the checker requires exactly one fetch per closure package (none outside), one version-list request per registry package, one source-address request per selected version, finder runs equal to the number of distinct closure addresses per (content, sub-path, finder), and start->(success|failure)->already* per key. A build exceeding 4x the closure's callback count is aborted and reported as non-terminating. A further phase fails every fetch / registry callback position of generated worlds in turn and runs the bracket automaton over the faulted build's log (failure answers a start; 'already' only after a success).",
+         "Order of events is unconstrained; the counting clauses are checked on fault-free worlds only, the trace clauses also under single faults.",
          "DESIGN.md §5 C14"),
  "C17": ("exploration",
          "runtime monitor: registry client call log and bundle accessors vs a brute-force newest-allowed choice (own semver precedence); exhaustive listing orders x allowed sets",
@@ -46,27 +46,27 @@ CHECKS = {
          "DESIGN.md §5 C17"),
  "C16": ("exploration",
          "runtime differential monitor (decoded slug vs baseline) over spellings / working directories / symlinked roots / call histories, and the Go race detector over concurrent Pack calls",
-         "For every generated tree and option set the decoded entry list of Pack by the absolute clean path is compared with the lists obtained under 16 variations of spelling, working directory, route through symlinks and preceding calls; concurrent rounds (fresh race-instrumented process each, 8-16 goroutines behind a barrier, default-rule and negation-first rule files mixed) compare every output with a solo run and treat any race-detector report as a violation.",
+         "For every generated tree and option set the decoded entry list of Pack by the absolute clean path is compared with the lists obtained under 18 variations of spelling, working directory, route through symlinks and preceding calls; concurrent rounds (fresh race-instrumented process each, 8-16 goroutines behind a barrier, default-rule and negation-first rule files mixed) compare every output with a solo run and treat any race-detector report as a violation.",
          "Interleavings are those the scheduler produced; the baseline is produced by the same code in the same process.",
          "DESIGN.md §5 C16"),
  "C03": ("exploration",
          "runtime monitor: set of shipped files (real Pack in 3 modes + one-package bundle build) vs an independent segment-wise glob reference over a fixed path universe; exhaustive single rules and ordered pairs",
-         "For every generated rule file the files actually shipped by Pack (ignore on, ignore off, through a dereferenced external directory) and left in a bundle package directory are compared with the verdict of ref.Excluded (a regexp-free, segment-wise implementation of the documented rule language) for every path of the universe. Exhaustive over all single rules (3048) and all ordered pairs of a rule core; PRNG files with comments, blanks, padding and CRLF; thorough adds ordered triples and the full 323-path universe.",
+         "For every generated rule file the files actually shipped by Pack (ignore on, ignore off, through a dereferenced external directory) and left in a bundle package directory are compared with the verdict of ref.Excluded (a regexp-free, segment-wise implementation of the documented rule language) for every path of the universe. Exhaustive over all single rules (3048) and all ordered pairs of a rule core; PRNG files with comments, blanks, padding and CRLF; every rule file ends, depending on its text, with LF, CR LF or no line terminator; thorough adds ordered triples and the full 323-path universe.",
          "Directory entries are not judged; when the dereferenced link's own path is excluded no claim is made about paths below it; undocumented pattern forms are excluded from the universe.",
          "DESIGN.md §5 C03"),
  "C15": ("exploration",
          "runtime reference interpreter of the entry list vs the destination tree read back with Lstat/Readlink; exhaustive short sequences x tar formats x privilege",
-         "A reference interpreter reads each entry sequence into an abstract tree (last entry per path wins, implicit parents without metadata, directory metadata final); the real Unpack runs as root and as uid 65534 inside a chroot and the destination is compared field by field (kind, content, permission bits, mtime, link target, no extra paths). Conflict-free representable sequences must unpack; hard link / device / fifo entries (also inserted at every position of PRNG sequences) must make it fail.",
+         "A reference interpreter reads each entry sequence into an abstract tree (last entry per path wins, implicit parents without metadata, directory metadata final); the real Unpack runs as root and as uid 65534 inside a chroot and the destination is compared field by field (kind, content, permission bits, mtime, link target, no extra paths). Conflict-free representable sequences must unpack; hard link / device / fifo entries (also inserted at every position of PRNG sequences) must make it fail. Entry sequences kept by coverage-guided fuzzing campaigns (harness/corpus) are replayed under the same oracle; header records (PAX 'g') must have no effect on the destination.",
          "Sequences whose sequential reading is itself undefined (entry over an existing link, file vs directory conflicts) are counted but not judged; implicit parents' metadata, symlink mtimes and the destination root are not compared.",
          "DESIGN.md §5 C15"),
  "C02": ("exploration",
          "runtime round-trip monitor: materialise tree, real Pack + Unpack, recursive Lstat/Readlink/content comparison; generated trees + exhaustive mode and mtime sweeps x options x privilege",
-         "Generated trees (odd names, all 512 file modes, read-only and empty directories, fractional / extreme mtimes, in-tree relative links of every shape) are packed with all four option sets and unpacked into an empty directory as root and as an unprivileged uid; source and result are read back independently and compared on path set, kind, content, permission bits, link target and mtime rounded to the second.",
-         "Root's own metadata and symlink mtimes are not compared; unprivileged trees keep owner read/search permission.",
+         "Generated trees (odd names, all 512 file modes, read-only and empty directories, fractional / extreme mtimes, in-tree relative links of every shape) are packed with all four option sets and unpacked into an empty directory as root and as an unprivileged uid; source and result are read back independently and compared on path set, kind, content, permission bits, link target and mtime rounded to the second. An exhaustive phase plants .terraform/modules (re-included by the default rules) with 4 modes x 4 contents x 3 depths beside excluded siblings.",
+         "Root's own metadata and symlink mtimes are not compared; trees in which a link is led outside by another link are outside the universe (C05 owns them); unprivileged trees keep owner read/search permission.",
          "DESIGN.md §5 C02"),
  "C05": ("exploration",
          "runtime monitor: independent decode of the produced slug compared with the tree description and the physical target of every link; Unpack of the result; exhaustive link shapes x option sets",
-         "A world with a prefix-sharing sibling and canary-filled outside area gets links of 24 shapes at 3 depths; each is packed under {dereference} x {ignore} x 5 allow-lists (exhaustive for single links, PRNG for combinations). The slug is decoded with archive/tar and every entry is checked: no canary without dereferencing, no out-of-tree or root-climbing link stored without allow-list, refusal is an IllegalSlugError, dereferenced content equals the physical target, and Unpack accepts slugs from all-relative trees.",
+         "A world with a prefix-sharing sibling and canary-filled outside area gets links of 31 shapes at 3 depths (incl. links that stay inside as written but are led outside by another link); each is packed under {dereference} x {ignore} x 5 allow-lists (exhaustive for single links, PRNG for combinations). The slug is decoded with archive/tar and every entry is checked: no canary without dereferencing, no out-of-tree or root-climbing link stored without allow-list, refusal is an IllegalSlugError, dereferenced content equals the physical target, and Unpack accepts slugs from all-relative trees.",
          "Out-of-tree is decided component-wise on the place the target names; absolute in-tree links may be stored as links (pinned by the repository's tests).",
          "DESIGN.md §5 C05"),
  "C20": ("exploration",
@@ -76,7 +76,7 @@ CHECKS = {
          "DESIGN.md §5 C20"),
  "C01": ("exploration",
          "runtime snapshot-diff monitor (incl. ctime/inode/content hash) around Unpack in a chroot arena; exhaustive short entry sequences + PRNG + reader faults at every offset",
-         "Each hostile archive is unpacked by the real Unpack inside a chroot whose every path outside dst is snapshotted before and after the call (type, mode, owner, size, nlink, inode, mtime, ctime, link target, content hash); any difference, on success or error, is a violation. Sequences: all singles x 4 arenas x 9 allow-lists, all pairs (quick) / triples (thorough) of a 46-entry alphabet covering every name/target shape x type, PRNG sequences, link-focused sequences, and streams with the reader failing or ending at every byte offset.",
+         "Each hostile archive is unpacked by the real Unpack inside a chroot whose every path outside dst is snapshotted before and after the call (type, mode, owner, size, nlink, inode, mtime, ctime, link target, content hash); any difference, on success or error, is a violation. Sequences: all singles x 4 arenas x 10 allow-lists, all pairs (quick) / triples (thorough) of a 50-entry alphabet covering every name/target shape x type, all triples of a 28-entry alphabet of cooperating entries, PRNG sequences, link-focused sequences, entry sequences kept by coverage-guided fuzzing campaigns, a Packer reused for a second destination with destination-relative allow-list entries, 7 spellings of dst, and streams with the reader failing or ending at every byte offset (incl. inside the body of a large file for every arena x spelling). Thorough adds a native go test -fuzz run (80000 executions, containment assertion).",
          "Root inside a chroot on tmpfs; atime ignored; pre-populated dst has no symlinks.",
          "DESIGN.md §5 C01"),
  "C04": ("exploration",
@@ -86,17 +86,17 @@ CHECKS = {
          "DESIGN.md §5 C04"),
  "C06": ("exploration",
          "runtime round-trip oracle (print -> kind parser -> == -> print) over grammar/mutated/corpus inputs and the API derivation closure, plus print-bucket equality check",
-         "Every value accepted by ParseSource/ParseFinalSource/ParseRemotePackage/ParseRegistryPackage from grammar-directed, mutated and corpus strings, and every value derived from those through Package/SourceAddr/Versioned/Unversioned/FinalSourceAddr/ResolveRelative*/MakeRemoteSource to depth 2, is printed, re-parsed and compared (type, ==, second print); values are bucketed by printed form and a bucket must be one ==-class. Held = held on every value observed (counts in the evidence).",
+         "Every value accepted by ParseSource/ParseFinalSource/ParseRemotePackage/ParseRegistryPackage from grammar-directed, mutated and corpus strings, and every value derived from those through Package/SourceAddr/Versioned/Unversioned/FinalSourceAddr/ResolveRelative*/MakeRemoteSource to depth 2, is printed, re-parsed and compared (type, ==, second print); values are bucketed by printed form and a bucket must be one ==-class. 3226 strings kept by coverage-guided fuzzing campaigns are replayed; thorough adds a native go test -fuzz run (4e6 executions) of the round-trip target. Held = held on every value observed (counts in the evidence).",
          "Observes only the public API; == is taken as the library's equality. One recorded finding (edge-whitespace) is matched by witness classification.",
          "DESIGN.md §5 C06"),
  "C07": ("exploration",
          "runtime policy predicate over accessors of every accepted remote address; grammar must-accept; exhaustive single-rule-violation table; constructor tampering",
-         "An independent policy predicate (type, scheme, userinfo, query arguments, archive form, sub-path segments) is evaluated on every remote address accepted by any route (4 string parsers and MakeRemoteSource) over grammar strings (which must be accepted), an exhaustive table of single-rule violations x spellings (which must be rejected), mutated/arbitrary strings, and (type,URL,sub-path) triples with one tampered part.",
+         "An independent policy predicate (type, scheme, userinfo, query arguments, archive form, sub-path segments) is evaluated on every remote address accepted by any route (4 string parsers and MakeRemoteSource) over grammar strings (which must be accepted), an exhaustive table of single-rule violations x spellings (which must be rejected), mutated/arbitrary strings, the strings kept by coverage-guided fuzzing campaigns, and (type,URL,sub-path) triples with one tampered part.",
          "The predicate in props/c07.go is the reading of the documented policy; must-accept is limited to documented forms.",
          "DESIGN.md §5 C07"),
  "C19": ("exploration",
          "watched worker processes: recovered panics, process death (stack exhaustion, fatal errors) and a per-case watchdog, over hostile inputs to every entry point",
-         "Inputs: valid-UTF-8 strings (grammar, mutations, random runes) through all eight address parsers and the printing methods; tar streams with structured header mutations and repaired checksums, truncations, bit flips, random bytes, concatenated members through Unpack; generated / mutated / random manifest documents through OpenDir and the lookups; 24 trees with link cycles inside and outside the tree, directories linking to themselves / their parents / each other, links to fifos and sockets, odd names, deep nesting, rule files that are directories / dangling links / fifos, and 66 degenerate rule lines at every position of a rule file, through Pack (all option sets) and a one-package bundle build. A recovered panic, a dead worker (attributed to the case in progress) or a case without progress for the watchdog period is a violation.",
+         "Inputs: valid-UTF-8 strings (grammar, mutations, random runes) through all eight address parsers and the printing methods; tar streams with structured header mutations and repaired checksums, truncations, bit flips, random bytes, concatenated members through Unpack; generated / mutated / random manifest documents through OpenDir and the lookups; 24 trees with link cycles inside and outside the tree, directories linking to themselves / their parents / each other, links to fifos and sockets, odd names, deep nesting, rule files that are directories / dangling links / fifos, and 66 degenerate rule lines at every position of a rule file, through Pack (all option sets) and a one-package bundle build. Inputs kept by coverage-guided fuzzing campaigns are replayed first in the parser and OpenDir phases; thorough adds native go test -fuzz runs (4e6 / 8e4 / 1.5e5 executions) of the parser, Unpack and OpenDir targets. A recovered panic, a dead worker (attributed to the case in progress) or a case without progress for the watchdog period is a violation.",
          "Only generated inputs are covered; a hang is decided by the driver's watchdog (25-120 s without case progress, cases normally take milliseconds).",
          "DESIGN.md §5 C19"),
  # id: (level category, technique, level text, level note, design ref)
